@@ -1,0 +1,48 @@
+//go:build verif
+
+package obfs4
+
+import (
+	"bytes"
+	"net"
+
+	"gitlab.com/yawning/obfs4.git/transports/obfs4/framing"
+)
+
+// VerifPadBurst runs the real padBurst on a throw-away connection whose burst
+// buffer already holds tail bytes and reports how many bytes were appended.
+// Verification hook (build tag verif); not part of the package API.
+func VerifPadBurst(tail, target int) (added int, err error) {
+	var key [framing.KeyLength]byte
+	c := &obfs4Conn{encoder: framing.NewEncoder(key[:])}
+	burst := bytes.NewBuffer(make([]byte, tail))
+	if err = c.padBurst(burst, target); err != nil {
+		return 0, err
+	}
+	return burst.Len() - tail, nil
+}
+
+// VerifBuffered reports how many undecoded and decoded-but-unread bytes an
+// obfs4 connection currently holds.
+func VerifBuffered(conn net.Conn) (undecoded, decoded int, ok bool) {
+	c, ok := conn.(*obfs4Conn)
+	if !ok {
+		return 0, 0, false
+	}
+	return c.receiveBuffer.Len(), c.receiveDecodedBuffer.Len(), true
+}
+
+// VerifConstants exposes the framing/handshake constants the monitors compare
+// their own (specification derived) values with.
+func VerifConstants() map[string]int {
+	return map[string]int{
+		"maxHandshakeLength":     maxHandshakeLength,
+		"clientMinPadLength":     clientMinPadLength,
+		"clientMaxPadLength":     clientMaxPadLength,
+		"serverMinPadLength":     serverMinPadLength,
+		"serverMaxPadLength":     serverMaxPadLength,
+		"inlineSeedFrameLength":  inlineSeedFrameLength,
+		"maxPacketPayloadLength": maxPacketPayloadLength,
+		"headerLength":           headerLength,
+	}
+}
